@@ -16,26 +16,37 @@ theorem mapM'_map {α β γ : Type} (f : β → Option γ) (g : α → β) (h : 
     have h2 := ih (fun y hy => hx y (by simp [hy]))
     simp [mapM', h1, h2]
 
+theorem entriesFrom_cons (l : Labels) (pos : Nat → Nat) (rem : List SFrame) (k : Nat) (x : SInsn) (xs : List SInsn) :
+    ∃ fr rem', entriesFrom l pos rem k (x :: xs) = ⟨l.get (pos k), fr, mapT (labOf l pos) x.insn⟩ :: entriesFrom l pos rem' (k + 1) xs := by
+  cases rem with
+  | nil => exact ⟨none, [], rfl⟩
+  | cons f rest =>
+    by_cases h : f.at_ = k
+    · exact ⟨some (f.kind.raw l pos), rest, by simp [entriesFrom, h]⟩
+    · exact ⟨none, f :: rest, by simp [entriesFrom, h]⟩
+
 /-- the label carriers from instruction `k` on: the id at offset `pos j` is carried by entry `j` -/
 theorem lookup_go (lf : Labels) (hwf : lf.WF) (pos : Nat → Nat) (N : Nat)
     (hinj : ∀ i j, i ≤ N → j ≤ N → pos i = pos j → i = j) (xs : List SInsn) (k : Nat) (hk : k + xs.length = N)
-    (t id : Nat) (hkt : k ≤ t) (htN : t ≤ N) (hg : lf.get (pos t) = some id) :
-    lookupLabel (labelIndex.go (lf.get (pos N)) (entriesFrom lf pos k xs) k) id = some t := by
-  induction xs generalizing k with
+    (t id : Nat) (hkt : k ≤ t) (htN : t ≤ N) (hg : lf.get (pos t) = some id) (rem : List SFrame) :
+    lookupLabel (labelIndex.go (lf.get (pos N)) (entriesFrom lf pos rem k xs) k) id = some t := by
+  induction xs generalizing k rem with
   | nil =>
     simp only [List.length_nil, Nat.add_zero] at hk
     have hkN : k = N := hk
     have htk : t = N := by omega
     subst htk
-    simp [entriesFrom, labelIndex.go, hg, lookupLabel, hkN]
+    cases rem <;> simp [entriesFrom, labelIndex.go, hg, lookupLabel, hkN]
   | cons x xs ih =>
     simp only [List.length_cons] at hk
-    simp only [entriesFrom, labelIndex.go]
+    obtain ⟨fr, rem', he⟩ := entriesFrom_cons lf pos rem k x xs
+    rw [he]
+    simp only [labelIndex.go]
     cases hgk : lf.get (pos k) with
     | none =>
       have : k ≠ t := by intro e; subst e; rw [hg] at hgk; simp at hgk
       simp only []
-      exact ih (k + 1) (by omega) (by omega)
+      exact ih (k + 1) (by omega) (by omega) rem'
     | some idk =>
       simp only [lookupLabel, List.find?]
       by_cases he : idk = id
@@ -47,14 +58,14 @@ theorem lookup_go (lf : Labels) (hwf : lf.WF) (pos : Nat → Nat) (N : Nat)
       · have hne : (idk == id) = false := by simp [he]
         simp only [hne]
         have : k ≠ t := by intro e; subst e; rw [hg] at hgk; simp at hgk; exact he hgk.symm
-        exact ih (k + 1) (by omega) (by omega)
+        exact ih (k + 1) (by omega) (by omega) rem'
 
 /-- all labels the raw code mentions resolve through the carriers -/
 structure Resolves (m : List (Nat × Nat)) (lf : Labels) (pos : Nat → Nat) (N : Nat) : Prop where
   ok : ∀ t, t ≤ N → (lf.get (pos t)).isSome = true → lookupLabel m (labOf lf pos t) = some t
 
-theorem resolves_of_wf (lf : Labels) (hwf : lf.WF) (insns : List SInsn) :
-    Resolves (labelIndex (entriesFrom lf (codePos insns) 0 insns) (lf.get (codePos insns insns.length))) lf
+theorem resolves_of_wf (lf : Labels) (hwf : lf.WF) (insns : List SInsn) (rem : List SFrame) :
+    Resolves (labelIndex (entriesFrom lf (codePos insns) rem 0 insns) (lf.get (codePos insns insns.length))) lf
       (codePos insns) insns.length := by
   refine ⟨fun t ht hs => ?_⟩
   cases hg : lf.get (codePos insns t) with
@@ -63,7 +74,7 @@ theorem resolves_of_wf (lf : Labels) (hwf : lf.WF) (insns : List SInsn) :
     have : labOf lf (codePos insns) t = id := by simp [labOf, hg]
     rw [this]
     exact lookup_go lf hwf (codePos insns) insns.length (fun i j hi hj h => codePos_inj insns i j hi hj h) insns 0
-      (by simp) t id (Nat.zero_le _) ht hg
+      (by simp) t id (Nat.zero_le _) ht hg rem
 
 theorem insn_resolve (m : List (Nat × Nat)) (lf : Labels) (pos : Nat → Nat) (N : Nat) (hr : Resolves m lf pos N) (i : Insn)
     (ht : ∀ t ∈ targetsOf i, t ≤ N ∧ (lf.get (pos t)).isSome = true) :
